@@ -300,6 +300,23 @@ ENSURES(sp->data.ptr == NULL ||
         (sz > 0 && FRESH(sp->data.ptr, sizeof(vf_blk_t)) && HARD(BLK(sp)) == 1 && SOFT(BLK(sp)) == 1 && !LOCKED(BLK(sp)) &&
          GP_OK(&BLK(sp)->up.gp) && FRESH(MEM(BLK(sp)), sz) && BLK(sp)->up.clr.func == clr && BLK(sp)->up.clr.priv == NULL))
 ENSURES(sz == 0 ==> sp->data.ptr == NULL)
+#elif defined(VF_SP_ALLOC_OCCUPIED)
+/* alloc onto a pointer that owns an allocation: that allocation is let go exactly as by reset --
+ * for EVERY requested size, also 0 (seeded change C05-6 returned early for size 0) -- and then the
+ * pointer is the sole owner of fresh memory, or empty */
+REQUIRES(SP_FRESH(sp) && ON_BLOCK(sp) && HARD(BLK(sp)) >= 1 && CLR_GHOST(BLK(sp)) && (clr == NULL || clr == vf_clr))
+REQUIRES(vf_w_hard == HARD(BLK(sp)) && vf_w_soft == SOFT(BLK(sp)) && vf_w_has_clr == (BLK(sp)->up.clr.func != NULL))
+ASSIGNS(sp->data.ptr, sp->data.self, vf_clr_calls, vf_clr_bad, __CPROVER_object_whole(sp->data.ptr))
+FREES(sp->data.ptr, BLK(sp)->up.gp.ptr)
+ENSURES(GP_OK(&sp->data) && sp->data.ptr != OLD(sp->data.ptr))
+ENSURES(vf_clr_calls == ((vf_w_hard == 1 && vf_w_has_clr) ? 1 : 0) && !vf_clr_bad)
+ENSURES(__CPROVER_was_freed(OLD(BLK(sp)->up.gp.ptr)) == (vf_w_hard == 1))
+ENSURES(__CPROVER_was_freed(OLD(sp->data.ptr)) == (vf_w_soft == 1))
+ENSURES(vf_w_soft > 1 ==> (HARD(OBLK(sp)) == vf_w_hard - 1 && SOFT(OBLK(sp)) == vf_w_soft - 1))
+ENSURES(sp->data.ptr == NULL ||
+        (sz > 0 && FRESH(sp->data.ptr, sizeof(vf_blk_t)) && HARD(BLK(sp)) == 1 && SOFT(BLK(sp)) == 1 && !LOCKED(BLK(sp)) &&
+         GP_OK(&BLK(sp)->up.gp) && FRESH(MEM(BLK(sp)), sz) && BLK(sp)->up.clr.func == clr && BLK(sp)->up.clr.priv == NULL))
+ENSURES(sz == 0 ==> sp->data.ptr == NULL)
 #endif
 ;
 
